@@ -52,7 +52,7 @@ def gen_table_text(rng):
 
 def table_texts(res, ctx, rng):
     from pykdebugparser.trace_codes import from_trace_codes_text
-    for _ in range(ctx.pick(300, 6000)):
+    for _ in range(ctx.pick(400, 60000)):
         text, model = gen_table_text(rng)
         res.case(text)
         try:
@@ -106,7 +106,7 @@ def front(data, table, what):
 
 def dumps(res, ctx, rng):
     bundled = dict(ev.bundled_codes())
-    for _ in range(ctx.pick(25, 400)):
+    for _ in range(ctx.pick(30, 3000)):
         evs = gen.gen_scenario_events(rng, n_scenarios=rng.choice((4, 8)))
         data = wire.v2_file(gen.threadmap_for(evs), 8, gen.events_to_records(evs))
         used = sorted({e.eventid for e in evs})
